@@ -155,6 +155,78 @@ def _child_run(case, q):
         q.put(f"{type(e).__name__}: {e}")
 
 
+# configuration fields a later run may differ in from an earlier one of the same process, with two values each
+ONE_FIELD = [
+    (["detector", "radio", "gain"], 1.8, 9.0),
+    (["simulation", "ionosphere", "total_electron_content"], 10.0, 55.0),
+    (["simulation", "ionosphere", "total_electron_error"], 0.1, 7.5),
+    (["detector", "radio", "nantennas"], 10, 3),
+    (["detector", "radio", "snr_threshold"], 5.0, 0.01),
+    (["detector", "radio", "high_frequency"], 300.0, 500.0),
+    (["detector", "optical", "quantum_efficiency"], 0.2, 0.9),
+    (["detector", "optical", "telescope_effective_area"], 2.5, 40.0),
+    (["detector", "optical", "photo_electron_threshold"], 10.0, 0.5),
+    (["simulation", "tau_shower", "etau_frac"], 0.5, 0.9),
+    (["simulation", "tau_shower", "table_version"], "3", "1"),
+    (["simulation", "max_cherenkov_angle"], math.radians(3.0), math.radians(1.2)),
+    (["simulation", "max_azimuth_angle"], math.radians(360.0), math.radians(90.0)),
+    (["detector", "initial_position", "altitude"], None, 1234.5),
+]
+
+
+def _one_field_cases(tier):
+    import os
+
+    seed = int(os.environ.get("VERIF_SEED", "1") or "1")
+    rng = np.random.default_rng(seed * 7907 + 13)  # enumeration parameters only; part of the deterministic case list
+    for rep in range(1 if tier == "quick" else 6):
+        for i in range(len(ONE_FIELD)):
+            for order in ([(seed + i + rep) % 2] if tier == "quick" else [0, 1]):
+                mode = "Diffuse" if rng.random() < 0.75 else "Target"
+                yield {
+                    "field": i, "order": order, "mode": mode, "n": int(rng.choice([40, 120])),
+                    "spectrum": [{"id": "monospectrum", "log_nu_energy": float(rng.choice([9.0, 10.5]))}, {"id": "powerspectrum", "index": 2.0, "lower_bound": 8.0, "upper_bound": 11.0}][int(rng.integers(0, 2))],
+                    "cloud": [{"id": "no_cloud"}, {"id": "monocloud", "altitude": 4.0}, {"id": "pressure_map", "month": int(rng.integers(1, 13))}][int(rng.integers(0, 3))],
+                    "optical": True, "radio": True, "det": float(rng.choice([525.0, 2000.0, 400.0])), "lat": 0.3, "lon": 1.1,
+                    "ra": float(rng.uniform(0, 6.28)), "dec": float(rng.uniform(-0.6, 0.6)), "aim": [float(rng.uniform(0.2, 0.8)), float(rng.uniform(0, 6.28))],
+                    "afl": math.radians(7.0), "seed": int(rng.integers(0, 2**31 - 1)), "scheds": [], "prio": list(range(12)), "workers": 1,
+                }
+
+
+def body_one_field(case):
+    """A run preceded, in the same process, by a run of a configuration that differs in exactly ONE field gives what
+    the same seeded run gives in a fresh interpreter (caches keyed on part of the configuration)."""
+    import multiprocessing as mp
+
+    path, v_plain, v_other = ONE_FIELD[case["field"] % len(ONE_FIELD)]
+    plain = dict(case, tweaks=[] if v_plain is None else [[path, v_plain]])
+    other = dict(case, tweaks=[[path, v_other]])
+    first, second = (other, plain) if case["order"] == 0 else (plain, other)
+    ctx = mp.get_context("spawn")
+    q = ctx.Queue()
+    pr = ctx.Process(target=_child_run, args=(second, q))  # the truth: the second configuration on its own
+    pr.start()
+    try:
+        with cut("compute() [earlier run, one field different]"):
+            run(first)
+        with cut("compute() [run under test]"):
+            _, tab = run(second)
+        got = q.get(timeout=900)
+    finally:
+        pr.join(60)
+        if pr.is_alive():
+            pr.kill()
+    if isinstance(got, str):
+        raise HarnessError("fresh-interpreter run failed: " + got)
+    mine = digest(tab)
+    diff = [k for k in mine if got.get(k) != mine[k]] + [k for k in got if k not in mine]
+    require(not diff, f"a seeded run differs from the same run in a fresh interpreter in {diff[:6]}; this process had before run the same configuration except {'.'.join(path)} = {(v_other if case['order'] == 1 else v_plain)!r} instead of {(v_plain if case['order'] == 1 else v_other)!r}")
+    labels = {".".join(path[-2:])}
+    if len(tab) > 0:
+        labels.add("survivors")
+    return labels
+
+
 def body_schedulers(case):
     if case["cloud"]["id"] == "pressure_map":
         # an earlier run of ANOTHER month in this process (state surviving from one run to the next)
@@ -346,6 +418,15 @@ SUBCHECKS = [
         doc="same seed: synchronous == real process pool",
         shrink=False,
         parallel=False,
+    ),
+    SubCheck(
+        "earlier_run_one_field",
+        None,
+        body_one_field,
+        lambda labels: "survivors" in labels,
+        {"quick": 1},
+        doc="run A', then run A (A' = A with exactly one configuration field changed; every field of the list in turn, both channels on, ionosphere active) == run A in a fresh interpreter, bit for bit",
+        exhaustive=lambda tier: _one_field_cases(tier),
     ),
     SubCheck(
         "channel_isolation",
